@@ -137,7 +137,7 @@ def finish(a, cfg, hs, results, extra, seed, t0):
         summaries |= set(r["summaries"])
         externals |= set(r["externals"])
         executed |= set(r["executed"])
-        if r["paths"] == 0 or (not r["obligations"] and not r["undecided"] and not r["errors"]):
+        if r["paths"] == 0 or (not r["obligations"] and not r["undecided"] and not r["errors"] and not r["covers"]):
             errors.append({"harness": h.name, "case": r["case"], "error": "vacuous: no path/obligation generated"})
     for o in extra:
         obligations.append(o)
@@ -304,12 +304,30 @@ def finish(a, cfg, hs, results, extra, seed, t0):
         return 3
     rc = 0
     for k in open_kf:
-        print("KNOWN-FINDING: property=%s %s" % (prop, k["what"]))
+        if a.only and k.get("harness") and a.only not in k["harness"]:
+            continue
+        w = os.path.join(HERE, k["witness"])
+        rp = json.load(open(w))
+        rp["repo"] = prog.repo
+        tmpw = os.path.join(HERE, "replays", prop, "known-" + os.path.basename(w))
+        os.makedirs(os.path.dirname(tmpw), exist_ok=True)
+        json.dump(rp, open(tmpw, "w"), indent=1)
+        os.environ["PYVC_FOLLOWUP"] = "0"
+        res = native_replay(tmpw)
+        os.environ.pop("PYVC_FOLLOWUP", None)
+        if res.get("reproduced"):
+            print("KNOWN-FINDING: property=%s %s" % (prop, k["what"]))
+        else:
+            print("CHECKER-ERROR known finding %s: its witness no longer fails on this tree (%s); known_findings.json is stale"
+                  % (k["id"], json.dumps(res)[:300]))
+            rc = 3
     if violations:
         for v in violations:
             print("VIOLATION property=%s replay=%s obligation=%s (%d refuted VCs)%s"
                   % (prop, v["replay"], v["obligation"], v["count"], "" if v["reproduced"] else " no-failing-input-found"))
         return 1
+    if rc:
+        return rc
     if unknown or undecided:
         for o in unknown[:10]:
             print("UNDECIDED property=%s obligation=%s reason=solver-unknown (%s)" % (prop, o["name"], o.get("detail", "")))
